@@ -29,6 +29,8 @@ type Obs struct {
 type Case struct {
 	Kbps bool  `json:"kbps"`
 	Obs  []Obs `json:"obs"`
+	// Origin of the injected clock: 0 = a date in 2023, 1 = the zero time.Time, 2 = the Unix epoch, 3 = year 2200
+	Origin int `json:"origin,omitempty"`
 }
 
 type src struct{ v uint64 }
@@ -82,7 +84,7 @@ func runCase(c Case) (st stats, err error) {
 		avgAt, sample = m.Average, m.Sample
 		defer k.Close()
 	}
-	t0 := time.Unix(1700000000, 0)
+	t0 := []time.Time{time.Unix(1700000000, 0), {}, time.Unix(0, 0), time.Date(2200, 1, 1, 0, 0, 0, 0, time.UTC)}[c.Origin%4]
 	now := int64(0)
 	ws := [3]*win{{ms: 10000}, {ms: 30000}, {ms: 300000}}
 	started := false
@@ -191,7 +193,7 @@ var rec = ev.New(prop, "histories",
 	Require("w30", "w300", "backwards", "stall", "avg", "kbps", "krps")
 
 func genCase(t *rapid.T) Case {
-	c := Case{Kbps: rapid.Bool().Draw(t, "kbps")}
+	c := Case{Kbps: rapid.Bool().Draw(t, "kbps"), Origin: rapid.IntRange(0, 3).Draw(t, "origin")}
 	n := rapid.IntRange(1, 60).Draw(t, "n")
 	counter := rapid.SampledFrom([]uint64{0, 1, 1000, 1 << 40, 1<<64 - 5}).Draw(t, "c0")
 	for i := 0; i < n; i++ {
